@@ -5,7 +5,8 @@ every connectivity a reader emits is in standard form on every path (typestate d
 each emitted variable is built from the source variables the format specification assigns to that role (MPAS primal and dual, ICON, ESMF, SCRIP, Exodus, GEOS);
 radian sources are converted and lon/lat/x/y/z roles preserved, incl. tuple returns of the polygon readers;
 attribute-presence tests address attributes; every Exodus connect block reaches the output in file order; longitudes are normalised on every construction path.
-the smallest index in use serves as index base only where the start_index attribute is known to be absent; readers normalise the file's Cartesian coordinates by their length; polygon vertices come from the exterior ring only."""
+the smallest index in use serves as index base only where the start_index attribute is known to be absent; readers normalise the file's Cartesian coordinates by their length; polygon vertices come from the exterior ring only.
+open_grid hands **kwargs to xarray unchanged; ICON tables are transposed unconditionally; the constants of uxarray/constants.py keep the pinned values."""
 
 import ast
 
